@@ -579,10 +579,14 @@ def enumerate_paths(fn, module, loop_bound=None, max_paths=MAX_PATHS, call_effec
                     nxt = [(fn.blocks[t.succs[0] if c[2] else t.succs[1]], None)]
                 else:
                     nxt = [(fn.blocks[t.succs[0]], (c, True, t)), (fn.blocks[t.succs[1]], (c, False, t))]
+                    if strict and any(v >= 1 for (a_, b_), v in path.edge_count.items() if b_ == blk.name):
+                        # second arrival at a loop header whose own test is not a constant: the trip count is a run-time value
+                        raise AnalysisError("%s contains a loop whose condition depends on run-time values (at %s): "
+                                            "straight-line path rules do not apply" % (fn.name, t.loc))
             for k, (s, cond) in enumerate(nxt):
                 if is_back(blk, s):
                     n = path.edge_count.get((blk.name, s.name), 0)
-                    if strict and n >= 1 and len(path.conds) + (1 if cond else 0) > path.back_mark.get((blk.name, s.name), 0):
+                    if strict and n >= 1 and cond:
                         raise AnalysisError("%s contains a loop whose condition depends on run-time values (at %s): "
                                             "straight-line path rules do not apply" % (fn.name, t.loc))
                     if n >= loop_bound:
